@@ -115,9 +115,25 @@ Theorem C08_rng_component_reaches_os_refuted : exists nm p, In nm FP.roots_os /\
 Proof. exact FPP.ga_os_entropy_refuted. Qed.
 Print Assumptions C08_rng_component_reaches_os_refuted.
 
+(** Programs made of anchored / global-by-design components run with rng = None — any semantics that stays inside the
+    footprints computed from the source — are reproducible after seeding (table obligation + world theorem combined). *)
+Theorem C08_library_programs_reproducible : forall (G O : Type) (py_of_seed np_of_seed : Z -> G) (out_unit : O)
+    (p : list (call G O)) (s : Z) (w1 w2 : world G),
+  Forall respects p -> Forall WP.library_default_call p ->
+  fst (run_prog (seed_call py_of_seed np_of_seed out_unit s :: p) w1) = fst (run_prog (seed_call py_of_seed np_of_seed out_unit s :: p) w2).
+Proof. exact WP.library_programs_reproducible. Qed.
+Print Assumptions C08_library_programs_reproducible.
+
+(** spawn(n, sbits) hands out exactly n stream seeds, each in [0, 2^sbits - 1] (model of the python-stream draws) *)
+Theorem C08_spawn_seeds_in_range : forall n sbits py l py', MT.spawn_ints n sbits py = Some (l, py') ->
+  length l = n /\ Forall (fun x => (x <= 2 ^ sbits - 1)%Z) l.
+Proof. exact WP.spawn_ints_spec. Qed.
+Print Assumptions C08_spawn_seeds_in_range.
+
 (** non-vacuity: a concrete well-scoped program whose calls respect their footprints (spawn a stream, use it, use the
     global stream); the table lists are non-empty *)
 Example C08_hyps_satisfiable : forall (f g : option MT.st -> option Z * option MT.st),
   (let p := [WP.spawn_call 64 0; WP.explicit_call 0 f; WP.global_call g] in Forall respects p /\ scoped [LPy; LNp] p)
+  /\ WP.library_default_call (WP.global_call g)
   /\ (100 <= length rng_functions)%nat /\ (100 <= length rng_components)%nat /\ (40 <= length FP.must_ids)%nat.
-Proof. intros f g. split; [exact (WP.example_program f g) | exact FPP.rng_functions_nonempty]. Qed.
+Proof. intros f g. split; [exact (WP.example_program f g) |]. split; [exact (WP.example_library_call g) | exact FPP.rng_functions_nonempty]. Qed.
